@@ -135,6 +135,16 @@ CHECKS = {
             "Trusted: the reference notions exact_value / unambiguous_bool / group / has_time_part in utmc/props/c12.py, "
             "written from docs/references/options.md.",
             "DESIGN.md §3 C12"),
+    "C14": ("bounded-exhaustive enumeration of (field type, container shape, boundary value) with 3-transition chains "
+            "(construct, JSON-encode, strict-decode, parse back) on the real encoder and parser",
+            "One data class per field type (int, float, str, bool, bytes, Decimal, date, datetime, time, timedelta, UUID, two "
+            "Enums) x shape (scalar, Optional, List, Set, Tuple[..., ...], Dict[str, .], nested class, two-field class) x both "
+            "base classes, instantiated with every value of the type's boundary list (348 datetime/offset/microsecond and "
+            "other values, pairs and triples inside containers): json.dumps(cls=JSONEncoder) succeeds, the text is standard "
+            "JSON (parse_constant raises), cls.__from__(text) returns an equal instance.",
+            "Trusted: canon() equality and Python's json module as the judge of standard JSON. Two recorded findings "
+            "(DataClass instances have no encoder; infinities are emitted as bare tokens).",
+            "DESIGN.md §3 C14"),
     "C16": ("explicit-state exploration (DFS with state dedup) of register/resolve histories on the real "
             "TypeRegistry against a cache-free reference model",
             "All histories of register/resolve operations up to depth 4 (quick) / 5 (thorough) over a menu of "
